@@ -52,6 +52,7 @@ type interpreter struct {
 	stubs              map[string]externalFn // per-run overrides (harness specific)
 	pools              map[*value][]value
 	forceInit          *ssa.Function
+	regexes            map[*value]*regexHandle
 	nowHook            *value // harness clock cell (unix nanos), if the harness installed one
 	lastNow            value
 }
